@@ -76,7 +76,7 @@ def corruptions(rng, entries, long_refs):
         yield "noise:" + label, None, with_stream(i, bytes(rng.randint(0, 255) for _ in range(len(b))))
         yield "remove:" + label, None, [(m, bytes(x)) for j, (m, x) in enumerate(entries) if j != i]
         # every 16-bit word in turn set to 0, 0xffff, 0x8000 (cells nulled, references dangling / huge, lengths absurd)
-        step = 2 if len(b) <= 80 else max(2, (len(b) // 40) & ~1)
+        step = 2 if len(b) <= 400 else max(2, (len(b) // 40) & ~1)
         for off in range(0, max(0, len(b) - 1), step):
             for val in (0, 0xFFFF, 0x8000, 0x7FFF):
                 d = bytearray(b)
@@ -102,12 +102,15 @@ def corruptions(rng, entries, long_refs):
             d[off:off + struct.calcsize(fmt)] = struct.pack(fmt, v)
             yield "ps@%d=%x" % (off, v), None, with_stream(si, d)
     # string property with an absurd length (allocation sized by an untrusted field)
-    idx = bytes(sb).find(struct.pack("<I", 30))
-    if idx > 0:
-        for v in (0xFFFFFFFF, 0x7FFFFFFF, 0x100000):
-            d = bytearray(sb)
-            d[idx + 4:idx + 8] = struct.pack("<I", v)
-            yield "pslen=%x" % v, None, with_stream(si, d)
+    idx, nth = bytes(sb).find(struct.pack("<I", 30)), 0
+    while idx > 0:
+        if idx % 4 == 0:
+            for v in (0, 1, 2, 0xFFFFFFFF, 0x7FFFFFFF, 0x100000):
+                d = bytearray(sb)
+                d[idx + 4:idx + 8] = struct.pack("<I", v)
+                yield "pslen%d=%x" % (nth, v), None, with_stream(si, d)
+            nth += 1
+        idx = bytes(sb).find(struct.pack("<I", 30), idx + 1)
     # odd but well-formed values: every string property in turn, and string properties stored with another type
     for pid in (2, 3, 4, 6, 7, 9, 18):
         for k, txt in enumerate(ODD_TEXT):
